@@ -185,6 +185,9 @@ def op_labware(rng, sess, name, big, fault=0.0, comps=False, nmax=4, allow2d=Tru
             vols[j] = max(0, sess.vol[k][i] - spec["minv"]) + rng.choice([1, 1, 2, 5])
         else:
             vols[j] = max(0, spec["maxv"] - sess.vol[k][i]) + rng.choice([1, 1, 2, 5])
+        if name in ("aspirate", "dispense") and j + 1 < n and rng.random() < 0.3:
+            # a second fault at a later well: a step above the worklist's max_volume
+            vols[rng.randrange(j + 1, n)] = sess.prog["wl"]["maxv"] + rng.choice([1, 3])
     wshape = shape_of(rng, wells, allow2d)
     vshape = maybe_scalar(rng, vols) or same_shape(wshape, vols)
     if wshape["k"] == "m" and rng.random() < 0.3:
